@@ -20,7 +20,7 @@ REQUIRED = ["prep_checked:dominion", "prep_checked:hart", "prep_rejections_check
             "lookup_checked:hart", "lookups_with_empty_batches", "lookups_with_phantom_batch", "cvrs_checked:dominion",
             "cvrs_checked:hart", "sample_numbers_mapped", "phantom_cards_sampled",
             "manifest_row_labels_not_0_to_n", "manifest_row_labels_not_0_to_n_and_no_phantom_batch",
-            "second_lookup_in_same_manifest"]
+            "second_lookup_in_same_manifest", "cvr_identifiers_with_zero_padded_card_numbers"]
 ASSUMPTIONS = ["unique (tabulator, batch) labels per manifest", "Dominion lookup is 1-based, Hart lookup 0-based, as each "
                "vendor module documents and its test pins", "phantom CVR ids use the documented prefix 'phantom-1-'"]
 N_CASES = {"quick": 8000, "thorough": 64000}
@@ -93,6 +93,7 @@ def run_shard(spec, rec):
         case["sseed"] = rng.randrange(10 ** 9)
         case["n_cvrs"] = rng.randint(0, sum(case["sizes"]))
         case["index_mode"] = rng.choice(("default", "default", "offset", "permuted"))
+        case["padded_ids"] = rng.random() < 0.3
         run_case(case, rec)
 
 
@@ -242,13 +243,14 @@ def run_case(case, rec):
         if ph:
             cvr_list.append(CVR(id=f"phantom-1-{pos}", votes={}, phantom=True))
         elif vendor == "dominion":
-            c = CVR(id=f"{tab}-{batch}-{pos}", votes={"x": {"a": 1}})
+            c = CVR(id=(f"{tab}-{batch}-{pos:03d}" if case.get("padded_ids") else f"{tab}-{batch}-{pos}"), votes={"x": {"a": 1}})
             # card_in_batch is a separate attribute (set_card_in_batch_lex makes it the 0-based lexicographic position):
             # identifiers must come from the CVR id whatever it holds
             c.card_in_batch = rng.choice((pos, pos - 1, None, pos + 100))
             cvr_list.append(c)
         else:
-            cvr_list.append(CVR(id=f"{batch}_{pos}", votes={"x": {"a": 1}}))
+            # Hart identifiers are built from the raw text of the export: the sheet number may be zero-padded
+            cvr_list.append(CVR(id=(f"{batch}_{pos:03d}" if case.get("padded_ids") else f"{batch}_{pos}"), votes={"x": {"a": 1}}))
     k = min(len(cvr_list), rng.randint(1, 25))
     picks = rng.sample(range(len(cvr_list)), k)
     ok, res = rec.guard(f"c17.call:{vendor}.sample_from_cvrs", V.sample_from_cvrs, cvr_list, man, np.array(picks))
@@ -256,6 +258,8 @@ def run_case(case, rec):
         return
     cards2, order2, cvr_sample, mvr_ph2 = res
     rec.count(f"cvrs_checked:{vendor}")
+    if case.get("padded_ids"):
+        rec.count("cvr_identifiers_with_zero_padded_card_numbers")
     if [c.id for c in cvr_sample] != [cvr_list[i].id for i in picks] or any(a is not cvr_list[i] for a, i in zip(cvr_sample, picks)):
         rec.violation("c17.cvrs", f"{vendor}:cvrs_not_in_selection_order", {"got": [c.id for c in cvr_sample],
                                                                              "want": [cvr_list[i].id for i in picks]})
